@@ -1,9 +1,9 @@
 SPECIFICATION Spec
 CONSTANTS
-  MaxBytes = 5
+  MaxBytes = 3
   Cuts = {"transit"}
   MaxNotices = 1
-  NoticeEndsStream = FALSE
+  NoticeEndsStream = TRUE
   OriginErrorFatal = TRUE
 INVARIANTS
   Prefix
